@@ -1035,7 +1035,7 @@ def run_m(ctx: Ctx, cases, stream="multi"):
                             and case.get("initial", {}).get("kind") != "series_random"):
             if len([d for d in ctx.disagreements if d["stream"] == stream]) < 25:
                 ctx.disagree(stream, {**case, "line": None, "request": line[:600]}, a_, b_)
-        elif ":" in a_:
+        elif a_.count(":") == 2:
             edges = tuple(sorted(set((col.split(",")[0] == "nan", col.split(",")[-1] == "nan") for col in a_.split(":")[2].split("|"))))
             ctx.nontriv(("multi", case["op"], case["kind"], case["freq"], len(case["values"][0]), edges))
 
